@@ -27,6 +27,7 @@ import vlib
 
 PROPERTY = "C10"
 METHODS = ("npe", "lltsa", "lpp")
+NV = 4   # model variants asked per exact case: current, before F42, before F25, before F9
 
 TRUSTED = [
     "hand-written model Pencil_Model.v tied by exact differential testing on dyadic inputs (not a proof about the C++ text)",
@@ -234,7 +235,7 @@ def eval_k(ctx, exe1, mexe, cases, stats, reads="lower"):
     minp = []
     for c in cases:
         b = k_body_model(c)
-        minp += ["K 2 " + b, "K 1 " + b, "K 0 " + b]
+        minp += ["K 3 " + b, "K 2 " + b, "K 1 " + b, "K 0 " + b]
     mr = ctx.run(mexe, "\n".join(minp) + "\n", timeout=600)
     mlines = mr.out.splitlines()
     if mr.rc != 0 or len(mlines) != len(minp):
@@ -244,7 +245,7 @@ def eval_k(ctx, exe1, mexe, cases, stats, reads="lower"):
     for i, c in enumerate(cases):
         D = c["D"]
         malformed = c["gen"].startswith("malformed")
-        m25 = mlines[3 * i]
+        m25 = mlines[NV * i]
         if info[i] is not None:
             ctx.violation(c, "construct_%s eigenproblem: the routine crashed / hung on this input: %s"
                           % (c["method"], str(info[i])[:500]))
@@ -288,8 +289,8 @@ def eval_k(ctx, exe1, mexe, cases, stats, reads="lower"):
             c = cases[i]
             D = c["D"]
             models = {}
-            for name, off in (("current", 0), ("before-F25", 1), ("before-F9", 2)):
-                ml = mlines[3 * i + off].split()
+            for name, off in (("current", 0), ("before-F42", 1), ("before-F25", 2), ("before-F9", 3)):
+                ml = mlines[NV * i + off].split()
                 models[name] = [token_frac(x) for x in ml[1:]] if ml and ml[0] == "ok" else None
             impl = parsed[i][0] + parsed[i][1]
             cls = classify_tables(impl, models)
@@ -302,14 +303,17 @@ def eval_k(ctx, exe1, mexe, cases, stats, reads="lower"):
                 elif cls == "before-F25":
                     sig = "F25-lltsa-lhs-mean-update"
                     what = " (tables equal the model of the tree before fix F25: lhs carries -(X1)(X1)^T/N)"
+                elif cls == "before-F42":
+                    sig = "F42-lltsa-shift-uncentred"
+                    what = " (tables equal the model of the tree before fix F42: lhs built from uncentred features)"
                 ctx.violation(c, "construct_%s eigenproblem: what the generalised solver reads (%s triangles) of the "
-                                 "returned tables is not (X (W+W^T) X^T, X B X^T)%s; first differing entry: %s"
+                                 "returned tables is not (X (W+W^T) X^T, X B X^T) [LLTSA: X centred]%s; first differing entry: %s"
                               % (c["method"], reads, what, first_diff(impl, models["current"], D)), signature=sig)
                 stats["spec_fail"] += 1
                 continue
             stats["spec_ok"] += 1
             if models["current"] is None:
-                ctx.mismatch(c, "model reports %s on an input the implementation accepts" % mlines[3 * i][:60])
+                ctx.mismatch(c, "model reports %s on an input the implementation accepts" % mlines[NV * i][:60])
             elif cls != "current":
                 # what the solver reads is right, the other triangle differs from the model
                 stats["other_triangle_differs"] += 1
@@ -575,7 +579,15 @@ def eval_e(ctx, exe1, exe2, cases, stats, rng, rotate_every=2):
         if len(p["Mtok"]) != N * N or len(dv) != N:
             ctx.violation(c, "reference ingredients have the wrong size")
             continue
-        rl.append("R %d %d %d %s %s %d %s %s" % (N, D, d, " ".join(x for row in c["X"] for x in row),
+        xtok = [x for row in c["X"] for x in row]
+        if c["method"] == "lltsa":
+            # fix F42: both sides from the centred features Xc = X J (= the property's X M X^T for every M
+            # annihilating constants; X J X^T = Xc Xc^T): hand the centred features to the plain reference
+            Xf = [[parse_hex(x) for x in row] for row in c["X"]]
+            mu = [math.fsum(Xf[s][f] for s in range(N)) / N for f in range(D)]
+            xtok = [hexf(Xf[s][f] - mu[f]) for s in range(N) for f in range(D)]
+            bkind = 0
+        rl.append("R %d %d %d %s %s %d %s %s" % (N, D, d, " ".join(xtok),
                                                 " ".join(p["Mtok"]), bkind, " ".join(dv),
                                                 " ".join(hexf(x) for x in p["P"])))
         ridx.append(i)
@@ -803,7 +815,7 @@ def replay(ctx, case):
         eval_k(ctx, exe1, mexe, [case], stats)
         res, info = run_lines(ctx, exe1, [k_line_impl(case)], 120)
         print("implementation:", (res[0] or str(info[0]))[:600])
-        mr = ctx.run(mexe, "K 2 " + k_body_model(case) + "\nP " + k_body_model(case) + "\n")
+        mr = ctx.run(mexe, "K 3 " + k_body_model(case) + "\nP " + k_body_model(case) + "\n")
         print("model / reference pencil:", mr.out[:800])
     elif kind == "G":
         eval_g(ctx, exe1, [case], stats)
